@@ -198,7 +198,13 @@ fn run_rel(r: &mut Rng, n: u64) {
     rel_case("x7", "/a/b/", "/a/c"); rel_case("x8", "a/b.js", "a/c/"); rel_case("x9", "/", "/a"); rel_case("x10", "/a", "/");
     let path = |r: &mut Rng| -> String { let k = 1 + r.below(5); let abs = r.below(2) == 0; let sep = if r.below(4) == 0 { "\\" } else { "/" }; let pool = if r.below(3) == 0 { 11 } else { 6 }; let comps: Vec<&str> = (0..k).map(|_| names[r.below(pool) as usize]).collect(); format!("{}{}", if abs { "/" } else { "" }, comps.join(sep)) };
     rel_case("x0", "/foo/bar.js", "/foo/x/y.map"); rel_case("x1", "/a/b/c/d.js", "/a/x/y/z.map"); rel_case("x2", "/a/b.js", "/a"); rel_case("x3", "/foo/bar/baz.js", "/foo/barbaz/baz.map"); rel_case("x4", "/static/Lib/app.min.js", "/static/lib/app.min.js.map"); rel_case("x5", "a/a", "ab"); rel_case("x6", "a/a", "A");
-    for i in 0..n { let b = path(r); let t = path(r); rel_case(&format!("r{}", i), &b, &t); }
+    for i in 0..n { let b = path(r); let t = path(r); rel_case(&format!("r{}", i), &b, &t);
+        // the same base again, first towards its own directory or an ancestor, then towards a sibling
+        if i % 4 == 0 { let comps: Vec<&str> = b.split(|c| c == '/' || c == '\\').filter(|x| !x.is_empty()).collect(); if comps.len() >= 2 { let abs = b.starts_with('/');
+            let up = r.below(comps.len() as u64 - 1) as usize; let anc = format!("{}{}", if abs { "/" } else { "" }, comps[..comps.len() - 1 - up].join("/"));
+            if !anc.is_empty() && anc != "/" { rel_case(&format!("r{}a", i), &b, &anc); rel_case(&format!("r{}s", i), &b, &format!("{}/{}", anc, ["x.map", "a", "b"][r.below(3) as usize]));
+                // ... and towards something beside that ancestor (same parent directory as the previous target)
+                if let Some(k) = anc.rfind('/') { if k > 0 { rel_case(&format!("r{}a2", i), &b, &anc); rel_case(&format!("r{}p", i), &b, &format!("{}/{}", &anc[..k], ["x.map", "a", "zz"][r.below(3) as usize])); } } } } } }
 }
 fn slice_case(id: &str, line: &str, col: u32, span: u32) {
     let sv = sourcemap::SourceView::new(line.into());
@@ -252,6 +258,9 @@ fn run_adjust(r: &mut Rng, n: u64) {
             if !by_src { x.src = if r.below(6) == 0 { !0 } else { r.below(4) as u32 }; x.name = if x.src != !0 && r.below(2) == 0 { r.below(4) as u32 } else { !0 }; x.range = r.below(3) == 0; }
             x }).collect() };
         let o = mk(r, false); let a = mk(r, true); adjust_case(&format!("r{}", i), &o, &a);
+        // whole-line edits: every adjustment token maps a line start to a line start; the lines come in any order (moved, reversed, dropped, doubled)
+        if i % 5 == 0 { let nl = 2 + r.below(4) as u32; let mut a2: Vec<Tok> = vec![]; for dl in 0..nl { if r.below(6) != 0 { a2.push(t(dl, 0, r.below(nl as u64 + 1) as u32, 0)); } }
+            adjust_case(&format!("w{}", i), &o, &a2); }
     }
 }
 
@@ -292,13 +301,13 @@ fn map_obs(sm: &sourcemap::SourceMap) -> String {
 }
 fn gen_map(r: &mut Rng, sorted_sources: bool) -> sourcemap::SourceMap {
     let spool = ["a.js", "b.js", "", "/abs/c.js", "http://x/d.js", "/abs/e/f.js", "a.js", "q/\u{e9}.js", "https:g.js", "http:h.js", "/absolute/z.js", "/abs", "http://xy/w.js",
-        "src/\u{e9}.js", "\u{65e5}\u{672c}\u{8a9e}.js", "app/\u{1f600}.js", "webpack:///./src/a.js?abcd", "lib/x>y~.js", "e.js", "/abs/a.js", "Http://x/d.js", "/work/a/i.js", "/work/b/i.js", "/abs/a.js", "/work/a/i.js", "C:\\x\\y.js", "c:/x/z.js", "C:\\x\\w\\v.js", "1:/n.js", "/x.js", "/y.js", "/abs/dir/", "dir/"];
-    let npool = ["x", "y", "", "fn", "x", "\u{1f44c}ok", "caf\u{e9}", "a>b?c~"];
+        "src/\u{e9}.js", "\u{65e5}\u{672c}\u{8a9e}.js", "app/\u{1f600}.js", "webpack:///./src/a.js?abcd", "lib/x>y~.js", "e.js", "/abs/a.js", "Http://x/d.js", "/work/a/i.js", "/work/b/i.js", "/abs/a.js", "/work/a/i.js", "C:\\x\\y.js", "c:/x/z.js", "C:\\x\\w\\v.js", "1:/n.js", "/x.js", "/y.js", "/abs/dir/", "dir/", "/src/\u{e9}.js", "/src/\u{ea}.js", "/src/\u{65e5}.js", "/src/\u{65e9}.js", "dir\\", "C:\\proj\\"];
+    let npool = ["x", "y", "", "fn", "x", "\u{1f44c}ok", "caf\u{e9}", "a>b?c~", "q\\", "\\\""];
     let nsrc = 1 + r.below(4) as usize; let nn = r.below(4) as usize;
     let srcs: Vec<&str> = (0..nsrc).map(|i| if sorted_sources { spool[i] } else { spool[r.below(spool.len() as u64) as usize] }).collect();
     let names: Vec<&str> = (0..nn).map(|_| npool[r.below(npool.len() as u64) as usize]).collect();
     let mut toks = gen_toks(r, nsrc as u32, nn as u32, 10, true); toks.sort_by_key(|t| (t.dl, t.dc));
-    let contents: Vec<Option<std::sync::Arc<str>>> = (0..nsrc).map(|i| match r.below(9) { 0 => Some("".into()), 1..=3 => Some(format!("content{}", i).into()), 4 => Some(format!("{}x=>y??z~\u{1f44c}\u{e9}", &"ab"[..i % 3]).into()), _ => None }).collect();
+    let contents: Vec<Option<std::sync::Arc<str>>> = (0..nsrc).map(|i| match r.below(9) { 0 => Some("".into()), 1..=3 => Some(format!("content{}", i).into()), 4 => Some(format!("{}x=>y??z~\u{1f44c}\u{e9}", &"ab"[..i % 3]).into()), 5 if i % 2 == 0 => Some("ends in a backslash \\".into()), _ => None }).collect();
     let raw: Vec<sourcemap::RawToken> = toks.iter().map(|t| sourcemap::RawToken { dst_line: t.dl, dst_col: t.dc, src_line: t.sl, src_col: t.sc, src_id: t.src, name_id: t.name, is_range: t.range }).collect();
     let mut sm = sourcemap::SourceMap::new(match r.below(5) { 0 | 1 => Some("out.js".into()), 2 => Some("\u{1f600}>.js".into()), _ => None }, raw, names.iter().map(|s| (*s).into()).collect(), srcs.iter().map(|s| (*s).into()).collect(), if r.below(3) == 0 { None } else { Some(contents) });
     if r.below(3) == 0 { sm.set_source_root(Some(["", "root", "root/", "webpack:///", "r\u{e9}\u{1f600}/", "/abs"][r.below(6) as usize])); }
@@ -694,6 +703,7 @@ fn run_decode(r: &mut Rng, n: u64, with_faults: bool) {
             let via_reader = match catch_unwind(AssertUnwindSafe(|| sourcemap::decode(Chunked { data: &with_header, pos: 0, sizes: sizes.clone(), k: 0 }))) { Ok(x) => short(x), Err(_) => "panic".into() };
             let via_slice = if header.is_empty() { out.clone() } else { match catch_unwind(AssertUnwindSafe(|| sourcemap::decode_slice(&with_header))) { Ok(x) => short(x), Err(_) => "panic".into() } };
             let via_sm = match catch_unwind(AssertUnwindSafe(|| sourcemap::SourceMap::from_reader(Chunked { data: &with_header, pos: 0, sizes: sizes.clone(), k: 0 }))) { Ok(Ok(m)) => short(Ok(sourcemap::DecodedMap::Regular(m))), Ok(Err(e)) => format!("err {}", err_name(&e)), Err(_) => "panic".into() };
+            let via_sm_slice = match catch_unwind(AssertUnwindSafe(|| sourcemap::SourceMap::from_slice(&with_header))) { Ok(Ok(m)) => short(Ok(sourcemap::DecodedMap::Regular(m))), Ok(Err(e)) => format!("err {}", err_name(&e)), Err(_) => "panic".into() };
             // the same document as the embedded map of an index section (with or without a `url` beside it, also one level deeper): the
             // index decodes exactly when the document does, and fails with the document's error
             let wrap_differs = if r.below(3) == 0 { let docv: serde_json::Value = serde_json::from_slice(&text).unwrap();
@@ -706,6 +716,7 @@ fn run_decode(r: &mut Rng, n: u64, with_faults: bool) {
                     let want = if out.starts_with("ok") { "ok".to_string() } else { out.clone() };
                     if wout != want { Some(format!("as an index section (url beside map: {}) [{}]", with_url, wout)) } else { None } } else { None };
             if let Some(w) = wrap_differs { format!("entry-points-differ slice=[{}] {}", out, w) } else
+            if via_sm_slice != via_sm { format!("entry-points-differ SourceMap::from_slice=[{}] SourceMap::from_reader=[{}] (header {} bytes)", via_sm_slice, via_sm, header.len()) } else
             if via_reader != out || via_slice != out || (via_sm != out && out != "ok other-kind") { format!("entry-points-differ slice=[{}] reader(header {} bytes, reads {:?})=[{}] slice+header=[{}] SourceMap::from_reader=[{}]", out, header.len(), sizes, via_reader, via_slice, via_sm) } else { out } };
         let lst = |v: Vec<String>| format!("L{}", v.join(","));
         outln!("r{}\tdecode\t{}\t{}\t{}\t{}\t{}\t{}\t{}\t{}\t{}\t{}\t{}\t{}\t{}",
@@ -750,7 +761,7 @@ fn run_hermes(r: &mut Rng, n: u64) {
         let mut toks: Vec<Tok> = vec![];
         for _ in 0..(1 + r.below(8)) {
             let sl = match r.below(20) { 0 => u32::MAX, 1 => u32::MAX - 1, _ => r.below(5) as u32 };
-            toks.push(Tok { dl: 0, dc: (r.below(12) * 3) as u32, sl, sc: r.below(8) as u32, src: if r.below(8) == 0 { !0 } else { r.below(nsrc as u64) as u32 }, name: !0, range: r.below(5) == 0 });
+            toks.push(Tok { dl: 0, dc: (r.below(12) * 3) as u32, sl, sc: if r.below(9) == 0 { 65530 + r.below(9000) as u32 } else { r.below(8) as u32 }, src: if r.below(8) == 0 { !0 } else { r.below(nsrc as u64) as u32 }, name: !0, range: r.below(5) == 0 });
         }
         toks.sort_by_key(|t| (t.dl, t.dc));
         // sometimes the last source is an unreferenced second copy of the first one's NAME, with a function map of its own: the copy that the
@@ -775,7 +786,7 @@ fn run_hermes(r: &mut Rng, n: u64) {
                     let mut entries: Vec<(u32, u32, u32)> = vec![]; let (mut l, mut c) = (1u32, 0u32);
                     if reuse { entries = prev_entries.clone().unwrap(); } else {
                     for e in 0..r.below(7) {
-                        if e > 0 || r.below(2) == 0 { if r.below(3) == 0 { l += 1 + r.below(2) as u32; c = r.below(4) as u32; } else { c += 1 + r.below(4) as u32; } }
+                        if e > 0 || r.below(2) == 0 { if r.below(3) == 0 { l += 1 + r.below(2) as u32; c = r.below(4) as u32; } else { c += 1 + r.below(4) as u32; if r.below(10) == 0 { c += 65530 + r.below(4000) as u32; } } }   // a minified one-line module: columns beyond 16 bits
                         if messy && r.below(2) == 0 { c = c.saturating_sub(2); }
                         entries.push((l, c, if nnames == 0 { r.below(2) as u32 } else if r.below(8) == 0 { nnames as u32 + r.below(2) as u32 } else if r.below(14) == 0 { u32::MAX /* the running index dips to -1 */ } else { r.below(nnames as u64) as u32 }));
                     } }
@@ -795,7 +806,7 @@ fn run_hermes(r: &mut Rng, n: u64) {
                         if dn != 0 || dl != 0 || r.below(2) == 0 { own_vlq(dn, &mut s); pn = en_i; if dl != 0 || r.below(2) == 0 { own_vlq(dl, &mut s); pl = el as i64; } }
                     }
                     // an unparsable string: a foreign byte, or a value cut off after some complete values of the same segment
-                    let garbage = k == 2 && r.below(2) == 0; if garbage { s.push_str([",!", ",AAg", ",CDg", "g", ",AAA!", ";AAAAAAg", ",AAAAAAA"][r.below(6) as usize]); }
+                    let garbage = k == 2 && r.below(2) == 0; if garbage { s.push_str([",!", ",AAg", ",CDg", "g", ",AAA!", ";AAAAAAg", ",U!A", ",UC*", ";???", ",A\u{e9}", ",AAAAAAA"][r.below(10) as usize]); }
                     let mut arr = vec![serde_json::json!({"names": names, "mappings": s})];
                     if r.below(5) == 0 { arr.push(serde_json::json!({"names": ["other"], "mappings": "AAA"})); }
                     fb_json.push(serde_json::Value::Array(arr));
@@ -916,7 +927,7 @@ fn run_crash(r: &mut Rng, n: u64) {
                 if r.below(3) == 0 { let secs: Vec<serde_json::Value> = (0..r.below(4)).map(|s| {
                         let line = [0u64, 1, 4294967295][r.below(3) as usize] + s; let column = [0u64, 4294967295][r.below(2) as usize];
                         let mp = ["AAAA", "AAAA;;;;AACA", "", "g"][r.below(4) as usize];
-                        let inner = if r.below(4) == 0 { serde_json::Value::Null } else { serde_json::json!({"version": 3, "sources": ["a"], "names": [], "mappings": mp}) };
+                        let inner = if r.below(4) == 0 { serde_json::Value::Null } else if r.below(3) == 0 { serde_json::json!({"version": 3, "sources": ["a"], "names": [], "mappings": mp, "ignoreList": (match r.below(3) { 0 => vec![1u32], 1 => vec![0, 7], _ => vec![4294967295u32] })}) } else { serde_json::json!({"version": 3, "sources": ["a"], "names": [], "mappings": mp}) };
                         serde_json::json!({"offset": {"line": line, "column": column}, "map": inner, "url": v(r)}) }).collect();
                     m.insert("sections".into(), serde_json::Value::Array(secs)); }
                 serde_json::to_vec(&serde_json::Value::Object(m)).unwrap() }
@@ -1036,7 +1047,11 @@ fn gen_hermes_doc(r: &mut Rng) -> Vec<u8> {
     let mut fb = vec![];
     for _ in 0..nsrc {
         if r.below(5) == 0 { fb.push(serde_json::Value::Null); continue; }
-        let nn = 1 + r.below(3) as usize; let names: Vec<String> = (0..nn).map(|x| format!("f{}", x)).collect();
+        let nn = 1 + r.below(3) as usize; let names: Vec<String> = (0..nn).map(|x| format!("f{}_{}", fb.len(), x)).collect();
+        // sometimes the very same scope string as the previous source, under this source's own names
+        if let Some(prev) = fb.last().and_then(|p: &serde_json::Value| p.get(0)).and_then(|o| o.get("mappings")).and_then(|m| m.as_str()).map(|x| x.to_string()) { if r.below(3) == 0 {
+            let gnames: Vec<String> = (0..3).map(|x| format!("g{}_{}", fb.len(), x)).collect();
+            fb.push(serde_json::json!([{"names": gnames, "mappings": prev}])); continue; } }
         let mut s = String::new(); let (mut pl, mut pn, mut pc) = (1i64, 0i64, 0i64); let (mut l, mut c) = (1i64, 0i64);
         for e in 0..(1 + r.below(5)) { if e > 0 { s.push(','); c += 1 + r.below(4) as i64; if r.below(3) == 0 { l += 1; } }
             let n = r.below(nn as u64) as i64; own_vlq(c - pc, &mut s); pc = c; own_vlq(n - pn, &mut s); pn = n; own_vlq(l - pl, &mut s); pl = l; }
@@ -1093,7 +1108,12 @@ fn run_roundtrip(r: &mut Rng, n: u64) {
                     // debug ids with and without an appendix (the appendix is part of the id)
                     if r.below(3) == 0 { sm.set_debug_id(Some(["00000000-0000-0000-0000-000000000007", "00000000-0000-0000-0000-000000000007-2a", "12345678-9abc-def0-1234-56789abcdef0-ffffffff", "00000000-0000-0000-0000-000000000000", "00000000-0000-0000-0000-000000000000-1"][r.below(5) as usize].parse().unwrap())); }
                     // the map is not necessarily fresh: a history of in-place edits precedes the round trip (C01 speaks of every map, however it was reached)
-                    if r.below(3) == 0 { edit_history(&mut sm, r); }
+                    // sometimes the map has already been written once (or asked for a data URL, or cloned after that) before it is edited: nothing
+                    // that was computed for the first write may survive the edit
+                    let primed = r.below(4) == 0;
+                    if primed { let mut sink = vec![]; sm.to_writer(&mut sink).unwrap(); if r.below(2) == 0 { let _ = sm.to_data_url(); } if r.below(3) == 0 { sm = sm.clone(); }
+                        let _ = sm.lookup_token(0, 3); if r.below(2) == 0 { sm.remove_names(); } }
+                    if primed || r.below(3) == 0 { edit_history(&mut sm, r); }
                     if r.below(8) == 0 { sm = sm.rewrite(&sourcemap::RewriteOptions::default()).unwrap(); }
                     sourcemap::DecodedMap::Regular(sm) }
                 "index" => { let mut ix = gen_index(r, 2);
@@ -1158,6 +1178,11 @@ fn run_api(r: &mut Rng, n: u64, group: &str) {
                     chk("source_contents()", sm.source_contents().enumerate().all(|(k, x)| x == sm.get_source_contents(k as u32)));
                     // a lookup at a token's own position finds a token at that position: the first one
                     chk("lookup at token", toks.iter().all(|t| { let (l, c) = t.get_dst(); match sm.lookup_token(l, c) { Some(f) => f.get_dst() == (l, c) && Some(f.get_raw_token()) == toks.iter().find(|x| x.get_dst() == (l, c)).map(|x| x.get_raw_token()), None => false } }));
+                    { let mut raw: Vec<sourcemap::RawToken> = toks.iter().map(|t| t.get_raw_token()).collect(); for k in (1..raw.len()).rev() { let j = r.below(k as u64 + 1) as usize; raw.swap(k, j); }
+                      let names: Vec<std::sync::Arc<str>> = sm.names().map(|x| x.into()).collect(); let srcs: Vec<std::sync::Arc<str>> = (0..sm.get_source_count()).map(|k| sm.get_source(k).unwrap().into()).collect();
+                      let sm2 = sourcemap::SourceMap::new(None, raw, names, srcs, None); let toks2: Vec<sourcemap::Token> = sm2.tokens().collect();
+                      chk("shuffled construction: ordered", toks2.windows(2).all(|w| w[0].get_dst() <= w[1].get_dst()) && toks2.len() == toks.len());
+                      chk("shuffled construction: lookup at token", toks2.iter().all(|t| { let (l, c) = t.get_dst(); match sm2.lookup_token(l, c) { Some(f) => Some(f.get_raw_token()) == toks2.iter().find(|x| x.get_dst() == (l, c)).map(|x| x.get_raw_token()), None => false } })); }
                     let mut it = sm.tokens(); if let Some(t) = toks.last() { let (l, c) = t.get_dst(); chk("seek", it.seek(l, c) && it.next().map(|x| x.get_dst() > (l, c) || x.get_dst() == (l, c)).unwrap_or(true)); }
                 }
                 "history" => {  // C04 over histories of map-producing operations: after every step the tokens are ordered and lookups are right
@@ -1176,7 +1201,11 @@ fn run_api(r: &mut Rng, n: u64, group: &str) {
                             1 => { let adj = build_map(1, 0, &[Tok { dl: 0, dc: 0, sl: 0, sc: 0, src: 0, name: !0, range: false }, Tok { dl: 0, dc: 3 + r.below(4) as u32, sl: 0, sc: 8, src: 0, name: !0, range: false }, Tok { dl: 1, dc: 2, sl: 2, sc: 0, src: 0, name: !0, range: false }]);
                                    // adjust_mappings computes columns in i32: only for maps whose coordinates stay below 2^30 (C10's domain)
                                    if sm.tokens().all(|t| t.get_dst_col() < (1 << 30) && t.get_dst_line() < (1 << 30)) { for q in [(0u32, 1u32), (1, 1)] { let _ = sm.lookup_token(q.0, q.1); } sm.adjust_mappings(&adj); } "adjust_mappings" }
-                            2 => { let ix = sourcemap::SourceMapIndex::new(None, vec![sourcemap::SourceMapSection::new((r.below(2) as u32, r.below(3) as u32), None, Some(sourcemap::DecodedMap::Regular(sm.clone())))]); match ix.flatten() { Ok(f) => { sm = f; } Err(_) => {} } "flatten" }
+                            2 => { let first = (r.below(2) as u32, r.below(12) as u32);
+                                   // one section, or two sections that start on the same line a few columns apart (they may interleave: a flattened map is ordered whatever the sections look like)
+                                   let mut secs = vec![sourcemap::SourceMapSection::new(first, None, Some(sourcemap::DecodedMap::Regular(sm.clone())))];
+                                   if r.below(2) == 0 { secs.push(sourcemap::SourceMapSection::new((first.0, first.1 + 1 + r.below(20) as u32), None, Some(sourcemap::DecodedMap::Regular(sm.clone())))); }
+                                   let ix = sourcemap::SourceMapIndex::new(None, secs); match ix.flatten() { Ok(f) => { sm = f; } Err(_) => {} } "flatten" }
                             3 => { if sm.tokens().all(|t| t.get_dst_line() < 100_000) { let mut o = vec![]; sm.to_writer(&mut o).unwrap(); sm = sourcemap::SourceMap::from_slice(&o).unwrap(); } "write+read" }
                             4 => { sm.set_source_root(Some(["", "r", "/"][r.below(3) as usize])); "set_source_root" }
                             5 => { sm = sm.rewrite(&sourcemap::RewriteOptions { with_names: false, strip_prefixes: &["/abs"], ..Default::default() }).unwrap(); "rewrite(no names, strip)" }
@@ -1256,6 +1285,21 @@ fn run_api(r: &mut Rng, n: u64, group: &str) {
                     chk("data url: other preambles are refused", ["data:text/plain;base64,", "data:application/json;charset=utf8;base64,", "DATA:application/json;base64,", "data:application/json,", "data:application/json;base64", "", " data:application/json;base64,"].iter()
                         .all(|p| matches!(sourcemap::decode_data_url(&format!("{}{}", p, payload)), Err(sourcemap::Error::InvalidDataUrl))));
                     chk("data url: both accepted preambles", ["data:application/json;base64,", "data:application/json;charset=utf-8;base64,"].iter().all(|p| sourcemap::decode_data_url(&format!("{}{}", p, payload)).is_ok()));
+                    // two URLs of the same length whose payloads agree in their first and last few hundred characters and differ in the middle,
+                    // decoded one after the other: each decodes to its own payload
+                    { let mk = |mid: char| { let mut b = sourcemap::SourceMapBuilder::new(Some("o.js")); let sid = b.add_source("big.js"); let body: String = std::iter::repeat('x').take(700).chain(std::iter::once(mid)).chain(std::iter::repeat('y').take(700)).collect();
+                          b.set_source_contents(sid, Some(&body)); b.add_raw(0, 0, 0, 0, Some(sid), None, false); b.into_sourcemap() };
+                      let (ma, mb) = (mk('1'), mk('2')); let (ua, ub) = (ma.to_data_url().unwrap(), mb.to_data_url().unwrap());
+                      let content = |u: &str| match sourcemap::decode_data_url(u) { Ok(sourcemap::DecodedMap::Regular(m)) => m.get_source_contents(0).map(|c| c.to_string()), _ => None };
+                      let ca = content(&ua); let cb = content(&ub); let ca2 = content(&ua);
+                      chk("look-alike data urls", ua.len() == ub.len() && ca.as_deref() == ma.get_source_contents(0) && cb.as_deref() == mb.get_source_contents(0) && ca2 == ca); }
+                    // a large map now and then (a mappings string of several KiB, a document of more than 48 KiB): the URL is still the preamble plus
+                    // the standard base64 of the written bytes, and the library reads its own URL back
+                    if i % 25 == 7 { let ntok = [900u32, 3000, 20000][(i / 25 % 3) as usize]; let mut b = sourcemap::SourceMapBuilder::new(Some(["a.js", "ab.js", "abc.js"][r.below(3) as usize]));
+                        let sid = b.add_source("src/big.js"); let nid = b.add_name("n"); for k in 0..ntok { b.add_raw(k / 500, (k % 500) * 7, k / 3, k % 11, Some(sid), if k % 4 == 0 { Some(nid) } else { None }, false); }
+                        let big = b.into_sourcemap(); let url = big.to_data_url().unwrap(); let mut bytes = vec![]; big.to_writer(&mut bytes).unwrap();
+                        chk("large map: payload is the standard base64 of the written bytes", url.split_once(',').map(|x| x.1 == own_b64(&bytes)).unwrap_or(false));
+                        chk("large map: the library reads its own URL", match sourcemap::decode_data_url(&url) { Ok(sourcemap::DecodedMap::Regular(m)) => m.get_token_count() == big.get_token_count() && m.tokens().zip(big.tokens()).all(|(a, b)| a.get_raw_token() == b.get_raw_token()), _ => false }); }
                     chk("data url: embedded", match rf2.get_embedded_sourcemap() { Ok(Some(sourcemap::DecodedMap::Regular(m))) => { let mut a = vec![]; let mut b = vec![]; m.to_writer(&mut a).unwrap(); sm.to_writer(&mut b).unwrap(); a == b } _ => false });
                 }
                 "rewrite" => {  // C09 / C08: remove_names, flatten_and_rewrite
@@ -1287,6 +1331,13 @@ fn run_api(r: &mut Rng, n: u64, group: &str) {
                         chk("SourceMapHermes::from_reader", sourcemap::SourceMapHermes::from_reader(rd()).map(|m| dm_full_obs(&sourcemap::DecodedMap::Hermes(m))).map_err(|_| ()) == sourcemap::SourceMapHermes::from_slice(&bytes).map(|m| dm_full_obs(&sourcemap::DecodedMap::Hermes(m))).map_err(|_| ()));
                         chk("SourceMapHermes::from_slice kinds", sourcemap::SourceMapHermes::from_slice(&bytes).is_ok() == matches!(dm, sourcemap::DecodedMap::Hermes(_)));
                         chk("is_sourcemap", sourcemap::is_sourcemap(rd()) && sourcemap::is_sourcemap_slice(&bytes));
+                        // the same document with its dispatch key spelled with a JSON escape ("\u0073ections"): a key is a JSON string, every entry point reads it alike
+                        { let text = String::from_utf8(bytes.clone()).unwrap(); let esc = text.replacen("\"sections\"", "\"\\u0073ections\"", 1).replacen("\"x_facebook_sources\"", "\"x_facebook_\\u0073ources\"", 1).replacen("\"mappings\"", "\"mapping\\u0073\"", 1);
+                          let eb = esc.as_bytes(); let rd2 = || Chunked { data: eb, pos: 0, sizes: sizes.clone(), k: 0 };
+                          chk("escaped keys: decode", show(sourcemap::decode(rd2())) == show(sourcemap::decode_slice(eb)) && show(sourcemap::decode_slice(eb)) == show(sourcemap::decode_slice(&bytes)));
+                          chk("escaped keys: typed constructors", sourcemap::SourceMap::from_reader(rd2()).is_ok() == sourcemap::SourceMap::from_slice(eb).is_ok() && sourcemap::SourceMapIndex::from_reader(rd2()).is_ok() == sourcemap::SourceMapIndex::from_slice(eb).is_ok()
+                              && sourcemap::SourceMapHermes::from_reader(rd2()).is_ok() == sourcemap::SourceMapHermes::from_slice(eb).is_ok() && sourcemap::SourceMapIndex::from_slice(eb).is_ok() == matches!(dm, sourcemap::DecodedMap::Index(_))
+                              && sourcemap::is_sourcemap(rd2()) == sourcemap::is_sourcemap_slice(eb)); }
                     }
                 }
                 "builder" => {  // C13: add_token / has_source_contents / get_source / get_source_contents on the builder
@@ -1294,6 +1345,9 @@ fn run_api(r: &mut Rng, n: u64, group: &str) {
                     let with_name = r.below(2) == 0;
                     let mut b1 = sourcemap::SourceMapBuilder::new(None); let mut b2 = sourcemap::SourceMapBuilder::new(None); let mut same_raw = true;
                     for t in sm.tokens() { let x = b1.add_token(&t, with_name); let y = b2.add(t.get_dst_line(), t.get_dst_col(), t.get_src_line(), t.get_src_col(), t.get_source(), if with_name { t.get_name() } else { None }, t.is_range()); if x != y { same_raw = false; } }
+                    // tokens of a second map go into the same builders: ids of the donor maps mean nothing to the builder, names do
+                    let sm_b = gen_map(r, false);
+                    for t in sm_b.tokens() { let x = b1.add_token(&t, with_name); let y = b2.add(t.get_dst_line(), t.get_dst_col(), t.get_src_line(), t.get_src_col(), t.get_source(), if with_name { t.get_name() } else { None }, t.is_range()); if x != y { same_raw = false; } }
                     chk("add_token = add", same_raw && map_obs(&b1.into_sourcemap()) == map_obs(&b2.into_sourcemap()));
                     let mut b = sourcemap::SourceMapBuilder::new(None); let a = b.add_source("a.js"); let c = b.add_source("c.js");
                     chk("has_source_contents fresh", !b.has_source_contents(a) && !b.has_source_contents(c) && b.get_source_contents(a).is_none());
